@@ -21,6 +21,7 @@ ASSUMPTIONS = ["networkx Graph.edges()/nodes()/degree() enumerate the simple gra
                "matrices are compared as key -> value maps)",
                "float results are compared with exact rationals within 1e-9"]
 TRUSTED = ["float -> exact Fraction conversion of the implementation's matrix entries before c13_check"]
+PARTIAL = ['repeatability (C13_repeat) holds by construction of the model, which mirrors the fixed code (the counter is reset on every extraction); a regression of that reset is caught by the correspondence (several extractions on one object), not by a theorem']
 TECHNIQUE = "Coq proof (finite sums over Q, induction over the call history) + model/implementation correspondence"
 LEVEL_TEXT = (
     "General theorems in coq/Props/C13.v for every annotated network (any size, any number of topologies): each "
@@ -131,6 +132,12 @@ def generate(rng, tier):
     nrand = 500 if tier == "quick" else 6000
     for j in range(nrand):
         c = _rand_net(rng, big=(tier != "quick" and j % 5 == 0))
+        if j % 7 == 3 and c["jds"]:
+            # the annotations have MORE components than topology names were requested: the matrices of the requested
+            # topologies must not depend on that (excess tuples keep every component)
+            extra = rng.randint(1, 2)
+            for jd in c["jds"]:
+                jd.extend(rng.randint(0, 2) for _ in range(extra))
         yield c
     # malformed stream: one annotation too short
     for _ in range(20 if tier == "quick" else 200):
